@@ -240,6 +240,7 @@ static void bfs(int kind, unsigned cap) {
       hs[hi] = key;
       if (qt == qcap) { qcap *= 2; q = realloc(q, qcap * sizeof *q); }
       if (s.nh >= MAXHIST - 1) { vf_not_exhaustive("history length cap reached in C12 BFS"); continue; }
+      if ((qt & 0x7ff) == 33) vf_sample("%s (capacity %u): history of %u calls ending in %s(%u,%u,%u) reaches contents of %u entries", KIND_NAME[kind], cap, s.nh + 1, OP_NAME[ops[k].op], ops[k].i, ops[k].x, ops[k].y, nc.n);
       q[qt] = s;
       q[qt].c = nc;
       q[qt].h[q[qt].nh++] = ops[k];
